@@ -90,6 +90,7 @@ func NewClientWithLogger(
 		ctx,
 		cancel,
 		sync.WaitGroup{},
+		sync.Mutex{},
 	}
 }
 
@@ -122,6 +123,7 @@ type client struct {
 	context                          context.Context
 	cancelFunc                       context.CancelFunc
 	wg                               sync.WaitGroup // For the read loop.
+	v1ReadMutex                      sync.Mutex     // Serializes reads of the legacy (ATP v1) result path.
 }
 
 func (c *client) sendCBOR(message any) error {
@@ -530,7 +532,12 @@ func (c *client) getResultV1(
 	stepData schema.Input,
 ) ExecutionResult {
 	var doneMessage WorkDoneMessage
-	if err := cborReader.Decode(&doneMessage); err != nil {
+	// The decoder is shared and not safe for concurrent use. ATP v1 has no run IDs, so overlapping
+	// executions cannot be told apart anyway, but they must not corrupt the decoder.
+	c.v1ReadMutex.Lock()
+	err := cborReader.Decode(&doneMessage)
+	c.v1ReadMutex.Unlock()
+	if err != nil {
 		err = fmt.Errorf("failed to read or decode work done message (%w) for step %s", err, stepData.ID)
 		c.logger.Errorf(err.Error())
 		return NewErrorExecutionResult(err)
